@@ -283,6 +283,11 @@ func (rd *realDecoder) getCompactInt32Array() ([]int32, error) {
 
 	arrayLength := int(n) - 1
 
+	if arrayLength < 0 || arrayLength > rd.remaining()/4 {
+		rd.off = len(rd.raw)
+		return nil, ErrInsufficientData
+	}
+
 	ret := make([]int32, arrayLength)
 
 	for i := range ret {
